@@ -318,3 +318,23 @@ V("c15-burn-end-from-start", "C15", "violation", "C15.R2", edits=[("data/events/
 V("c15-thrust-frame-registry-swapped", "C15", "violation", "C15.R2", edits=[("data/events/base.py", "        ECI: eciBurn,\n        NTW: ntwBurn,", "        ECI: ntwBurn,\n        NTW: eciBurn,")])
 V("c15-sp-thrust-velocity-slots", "C15", "violation", "C15.R3", edits=[("dynamics/special_perturbations.py", "                a_perturbations += self.finite_thrust(concatenate((r_eci, v_eci)))[:3]", "                a_perturbations += self.finite_thrust(concatenate((r_eci, v_eci)))[3:]")])
 V("c15-n-end-selects-value", "C15", "pass", edits=[(FTF, "        if fpe_equals(_ival, 0.0) or fpe_equals(_fval, 0.0):\n            return 0.0\n        return _ival", "        if fpe_equals(_ival, 0.0) or fpe_equals(_fval, 0.0):\n            return 0.0\n        return _ival if time < self.start_time else _fval")])
+
+# ------------------------------------------------------------------------------------ C13
+SPF = "dynamics/special_perturbations.py"
+GPO = "physics/bodies/gravitational_potential.py"
+V("c13-term-left-out", "C13", "violation", "C13.R1", edits=[(SPF, "a_perturbations = a_nonspherical + a_third_body + a_srp + a_gr", "a_perturbations = a_nonspherical + a_third_body + a_srp")])
+V("c13-switch-wrong-flag", "C13", "violation", "C13.R1", edits=[(SPF, "a_gr = _getGeneralRelativityAcceleration(r_eci, v_eci) if self.use_gr else 0.0", "a_gr = _getGeneralRelativityAcceleration(r_eci, v_eci) if self.use_srp else 0.0")])
+V("c13-config-switch-crossed", "C13", "violation", "C13.R1", edits=[(SPF, "        self.use_gr = perturbations.general_relativity", "        self.use_gr = perturbations.solar_radiation_pressure")])
+V("c13-term-sign", "C13", "violation", "C13.R1", edits=[(SPF, "a_perturbations = a_nonspherical + a_third_body + a_srp + a_gr", "a_perturbations = a_nonspherical + a_third_body - a_srp + a_gr")])
+V("c13-geopotential-on-inertial", "C13", "violation", "C13.R2", edits=[(SPF, "                nonSphericalAcceleration(\n                    r_ecef,", "                nonSphericalAcceleration(\n                    r_eci,")])
+V("c13-rotation-not-transposed", "C13", "violation", "C13.R2", edits=[(SPF, "            r_ecef = matmul(ecef_2_eci.T, r_eci)", "            r_ecef = matmul(ecef_2_eci, r_eci)")])
+V("c13-degree-order-swapped", "C13", "violation", "C13.R2", edits=[(SPF, "                    self.degree,\n                    self.order,", "                    self.order,\n                    self.degree,")])
+V("c13-third-body-slots-swapped", "C13", "violation", "C13.R2", edits=[(SPF, "body.mu * _getThirdBodyAcceleration(r_eci, position)", "body.mu * _getThirdBodyAcceleration(position, r_eci)")])
+V("c13-sun-fraction-dropped", "C13", "violation", "C13.R3", edits=[(SPF, "        return a_srp * calculateSunVizFraction(sat_position, sun_eci_position) / 1000.0", "        return a_srp / 1000.0")])
+V("c13-harmonics-not-one-higher", "C13", "violation", "C13.R3", edits=[(GPO, "getNonSphericalHarmonics(ecef_pos, cb_radius, max_degree + 1, max_order + 1)", "getNonSphericalHarmonics(ecef_pos, cb_radius, max_degree + 1, max_order)")])
+V("c13-gr-speed-of-light-units", "C13", "violation", "C13.R3", edits=[(SPF, "    c_sq = (const.SPEED_OF_LIGHT / 1000) ** 2\n    # Intermediate term\n", "    c_sq = const.SPEED_OF_LIGHT**2\n    # Intermediate term\n")])
+V("c13-recursion-index-slip", "C13", "violation", "C13.R4", edits=[(GPO, "(2 * n - 1) * z_bar * v[n - 1, m] - (n + m - 1) * rho_sq * v[n - 2, m]", "(2 * n - 1) * z_bar * v[n - 1, m] - (n + m - 1) * rho_sq * v[n - 1, m]")])
+V("c13-partial-sign-slip", "C13", "violation", "C13.R4", edits=[(GPO, "                    + s[n, m] * v[n + 1, m + 1]\n", "                    - s[n, m] * v[n + 1, m + 1]\n")])
+V("c13-srp-towards-sun", "C13", "violation", "C13.R4", edits=[(SPF, "            -const.SOLAR_PRESSURE\n", "            const.SOLAR_PRESSURE\n")])
+V("c13-third-body-indirect-term", "C13", "violation", "C13.R4", edits=[(SPF, "    return r_sat_3 * q_3 - (r_e_sat / (r_e_3_norm**3))", "    return r_sat_3 * q_3 - (r_e_sat / (r_e_3_norm**2))")])
+V("c13-n-terms-reordered", "C13", "pass", edits=[(SPF, "a_perturbations = a_nonspherical + a_third_body + a_srp + a_gr", "a_perturbations = a_gr + a_srp + a_third_body + a_nonspherical")])
